@@ -253,8 +253,10 @@ def run(ctx):
         impl = ctx.harness('filter_parse', [s.encode('utf-8').hex() or '-' for s in strings], shards=4)
         model = model_eval(ctx, ['Base.Show', 'Model.Filter'], 'show_parse', [vlib.coq_N_list(s.encode('utf-8')) for s in strings],
                              case_type='list N', per_shard=400)
+        ffi_model = model_eval(ctx, ['Base.Show', 'Model.Filter'], 'show_ffi_filter', [vlib.coq_N_list(s.encode('utf-8')) for s in strings],
+                               case_type='list N', per_shard=400)
         parse_samples = [['parse', s, i] for s, i in zip(strings, impl)]
-        for s, i, m in zip(strings, impl, model):
+        for s, i, m, fm in zip(strings, impl, model, ffi_model):
             spec = spec_parse(s)
             rust, ffi = (i.split('|') + ['?'])[:2]
             classes['parse_accepted' if spec != 'ERR' else 'parse_rejected'] += 1
@@ -277,6 +279,11 @@ def run(ctx):
                            'wildcard-parser-rejects-or-misreads-grammar') + ('' if rust != spec else '.ffi')
                     ctx.violation(key, f'{which} on {s!r}: got {got}, the four-field grammar says {want}',
                                   {'cases': [['parse', s]], 'impl': i, 'spec': spec, 'model': m})
+            elif fm is not None and (lit is None or lit.version == 4) and fm != ffi_expect:
+                n_bad += 1
+                if n_bad <= 3:
+                    ctx.violation('ffi-filter-model-differs-from-impl', f'{s!r}: model of the C-ABI filter string gives {fm}, implementation and oracle {ffi_expect}',
+                                  {'cases': [['parse', s]], 'impl': i, 'spec': ffi_expect, 'model': fm}, no_failing_input=True)
             elif m is not None and m != spec:
                 n_bad += 1
                 if n_bad <= 3:
